@@ -244,6 +244,25 @@ def _dyn(kind):
     return type("Rec", (), {})()
 
 
+class _DictOnly(sd_mod.SyncedDict):
+    """A backend whose registry has a dict class only."""
+    _backend = "vf.c19.dict_only"
+
+    def __init__(self, data=None, parent=None, *a, **kw):
+        self._store = {}
+        super().__init__(data=data, parent=parent, *a, **kw)
+
+    def _load_from_resource(self):
+        return None
+
+    def _save_to_resource(self):
+        pass
+
+    @property
+    def _lock_id(self):
+        return id(self)
+
+
 POOL = [
     ("dict", lambda: {"a": 1, "b": [1]}), ("dict_empty", dict), ("dict_intkey", lambda: {1: 2}),
     ("list", lambda: [1, "a", None]), ("list_empty", list), ("tuple", lambda: (1, 2)),
@@ -287,6 +306,9 @@ POOL = [
     ("nested_dict_with_L", lambda: {"k": L([D(a=MySeq())])}),
     # several hundred DISTINCT new types in one value (bounded memo tables must not forget what they
     # cannot rebuild)
+    # equal to (and hashing like) a valid tuple, but with members that are not JSON
+    ("tuple_decimal_eq", lambda: (decimal.Decimal(1), 2)), ("tuple_fraction_eq", lambda: (fractions.Fraction(1), 2)),
+    ("tuple_complex_eq", lambda: (1 + 0j, 2)), ("tuple_int_pair", lambda: (1, 2)),
     ("burst_list_types", lambda: [type("B%d" % i, (list,), {})([i]) for i in range(160)]),
     ("burst_scalar_types", lambda: {"k%d" % i: type("N%d" % i, (int,), {})(i) for i in range(160)}),
 ]
@@ -294,6 +316,8 @@ NAMES = [n for n, _ in POOL]
 N = len(POOL)
 # used as warm-up only: an instance that sabotages its own classification has no specified outcome
 NO_PROBE = {"weird_bad", "burst_list_types", "burst_scalar_types"}   # used as warm-up only
+BURST_PROBES_QUICK = {"none", "list", "dict", "tuple", "str", "int", "float", "bool", "bytes", "set", "L", "D",
+                      "dict_intkey", "list_with_nan", "nested_list_with_np", "tuple_decimal_eq", "dyn_seq"}
 
 RESOLVERS = [
     ("sc", sc_mod._sc_resolver), ("collection", sc_mod._collection_resolver),
@@ -411,6 +435,10 @@ def probe(idx):
         res = JsonRes(os.path.join(d, f"c{os.getpid()}.json"))
         o = _outcome(lambda: res.make(ci, data=make()))
         fp.append((f"{cname}.ctor", (o[0], _shape(o[1]) if o[0] == "ok" else o[1])))
+    # LAST: the value also goes through a user-defined backend that only has a dict class (nested
+    # lists legitimately stay plain there). Being last, it is history for the NEXT value only.
+    o = _outcome(lambda: _DictOnly._from_base({"k": make(), "l": [make()]}))
+    fp.append(("dict_only_backend._from_base", (o[0], _shape(o[1]) if o[0] == "ok" else o[1])))
     return fp
 
 
@@ -543,6 +571,8 @@ def run_shard(spec, seed, tier, active):
                 continue
             if NAMES[b] in NO_PROBE:
                 continue
+            if tier == "quick" and NAMES[a].startswith("burst_") and NAMES[b] not in BURST_PROBES_QUICK:
+                continue    # (the bursts are expensive warm-ups: all probes only in the thorough tier)
             case = {"property": ID, "engine": "zygote", "warm": [NAMES[a]], "probe": NAMES[b]}
             d = run_case(case)
             record(case)
